@@ -414,6 +414,8 @@ class Session:
             gl.Client.connect = classmethod(_refuse)
         os.chdir(cwd or self.proj)
         self.last_cwd = os.getcwd()
+        modules_before = set(sys.modules)
+        n_modules = len(modules_before)
         if cwd_on_path:
             sys.path.insert(0, "")  # as under `python -m ...` / PYTHONPATH=. : the invoking directory is searched for modules first
         _AUDIT["events"] = []
@@ -426,10 +428,11 @@ class Session:
             _AUDIT["on"] = False
             os.chdir(saved_cwd)
             sys.path[:] = saved_path
-            for _name, _m in list(sys.modules.items()):  # helper modules a workflow file imported from this session's directories
-                _f = getattr(_m, "__file__", None)
-                if _f and os.path.realpath(_f).startswith(os.path.realpath(self.dir) + os.sep):
-                    del sys.modules[_name]
+            if len(sys.modules) != n_modules:  # helper modules a workflow file imported from this session's directories
+                for _name in [k for k in sys.modules if k not in modules_before]:
+                    _f = getattr(sys.modules[_name], "__file__", None)
+                    if _f and _f.startswith(self.dir + os.sep):
+                        del sys.modules[_name]
             root.handlers = saved_handlers
             root.setLevel(saved_level)
             click._compat.isatty = saved_isatty
